@@ -58,6 +58,8 @@ def load_property(pid):
     nts = [x.nontrivial for x in mods if hasattr(x, "nontrivial")]
     if nts:
         m.nontrivial = lambda line: next((k for k in (f(line) for f in nts) if k is not None), None)
+    xb = [x.explain_broken for x in mods if hasattr(x, "explain_broken")]
+    if xb: m.explain_broken = lambda ctx, pb: "\n".join(filter(None, (f(ctx, pb) for f in xb)))
     exs = [x.extra for x in mods if hasattr(x, "extra")]
     if exs:
         def extra(ctx, cov):
@@ -322,7 +324,12 @@ def main():
         n = len(__import__("glob").glob(os.path.join(vlib.VERIF, "replay", pid + "-*.txt"))) + 1
         path = os.path.join(vlib.VERIF, "replay", "%s-%d.txt" % (pid, n))
         os.makedirs(os.path.dirname(path), exist_ok=True)
-        open(path, "w").write("property %s: proof obligation / translation no longer checks on the current tree\n\n" % pid + "\n\n".join(proof_broken) + "\n\nsearch: %d ops evaluated on implementation and model, no failing input found\n" % evaluations)
+        extra_txt = ""
+        if hasattr(mod, "explain_broken"):
+            try: extra_txt = "\n\n" + (mod.explain_broken(ctx, proof_broken) or "")
+            except Exception as e: extra_txt = "\n\n(explain_broken failed: %s)" % e
+        open(path, "w").write("property %s: proof obligation / translation no longer checks on the current tree\n\n" % pid + "\n\n".join(proof_broken) + extra_txt + "\n\nsearch: %d ops evaluated on implementation and model, no failing input found\n" % evaluations)
+        if extra_txt.strip(): print("DETAIL: " + extra_txt.strip()[:500])
         violations.append("proof broken")
         for r in proof_broken: print("BROKEN: " + r[:600])
         print("VIOLATION property=%s replay=%s no-failing-input-found" % (pid, path)); code = 1
